@@ -1091,6 +1091,11 @@ def edges(rng, case, idx):
             _, exc = attempt(lambda: (r.create_container('c', '10 mL', [(water, '1 mL'), (lys, '5 mmol')]), r.bake()))
             if exc is None:
                 viol(['C14', 'C03', 'C08'], 'C14:amount_in_a_unit_that_does_not_measure_the_substance_accepted:Recipe.create_container', {'quantity': '5 mmol'})
+            brine_ = C('c', initial_contents=[(salt, '58.4428 mg'), (water, '10 mL')])        # 0.556 mol
+            for target in ('100 mmol', '0.556 mol', '2 mol'):
+                res, exc = attempt(lambda: brine_.fill_to(lys, target))
+                if exc is None or not isinstance(exc, ValueError):
+                    viol(['C11', 'C03', 'C14'], 'C03:infeasible_fill_accepted:solvent_has_no_measure:mol:' + ('accepted' if exc is None else type(exc).__name__), {'target': target, 'holds_mol': 0.556, 'solvent': 'an enzyme'})
             M.bucket(case['prop'] + '/edge/E31_units_per_N_grams')
             for n in rng.sample([3, 7, 9, 6, 11, 13, 30, 700], 4):
                 a, ea = attempt(lambda: S.enzyme('amylase', f'1 U/{n} g'))
